@@ -3,7 +3,8 @@
    function every theorem of Properties/C03.v is stated on -- for both rounding modes, with and without max_value, for every
    exponent interval and every magnitude.  With quadratic_approximation the exponent is twice an exponent of the interval. *)
 From Coq Require Import ZArith Bool Lia.
-From QV Require Import Base.ZQ Base.FL Quant.Po2 Quant.BinTern Quant.BinTernSrc.
+From QV Require Import Base.ZQ Base.FL Quant.Po2 Quant.BinTern Quant.BinTernSrc Quant.ReluSrc.
+From Coq Require Import ZifyBool.
 From QVGen Require Import Po2CallGen.
 Open Scope Z_scope.
 
@@ -41,3 +42,57 @@ Proof.
     with ((rnum (bcode_expr false x) * rden (rofZ (sign1r x))) * (rnum (rpow2 e) * rden (rpow2 e))) by ring.
   rewrite B. ring.
 Qed.
+
+(* ---- quantized_relu_po2.__call__ ---- *)
+Lemma clip_po2_zero m mn mx mv a : rnum a = 0 -> 0 < rden a -> clip_po2 m mn mx mv a = mn.
+Proof. intros H0 Hd. unfold clip_po2. replace (rlt a eps32) with true; [reflexivity|].
+  unfold rlt, eps32. cbn [rnum rden fst snd]. rewrite H0. symmetry. apply Z.ltb_lt. lia. Qed.
+
+Lemma rpow2_is_val e : req (rpow2 e) (po2_val (1, e)) = true.
+Proof. unfold po2_val, req, rmul, rofZ. cbn [rnum rden fst snd]. apply Z.eqb_eq. ring. Qed.
+
+(* the positive branch: the exponent is the clip of relu(x); for x <= 0 that is the smallest exponent *)
+Lemma pos_branch_exponent m mn mx mv x : 0 < rden x ->
+  clip_po2 m mn mx mv (lrelu (0, 1) x) = clip_po2 m mn mx mv (if negb (rnum x <? 0) then x else (0, 1)).
+Proof.
+  intros Xd. unfold lrelu, rlt. cbn [rnum rden fst snd].
+  destruct (0 * rden x <? rnum x * 1) eqn:E.
+  - replace (rnum x <? 0) with false by lia. reflexivity.
+  - destruct (rnum x <? 0) eqn:E2; cbn [negb].
+    + rewrite !clip_po2_zero; try reflexivity; unfold rmul; cbn [rnum rden fst snd]; lia.
+    + rewrite !clip_po2_zero; try reflexivity; unfold rmul; cbn [rnum rden fst snd]; lia.
+Qed.
+
+(* no slope: the value is 2^e for the model's exponent, for every input *)
+Theorem link_rpo2_plain bits mvo m slope x : 0 < rden x ->
+  let c := RP2 bits mvo m None in
+  req (gen_rpo2_xq (clip_po2 m (rpo2_min_exp bits mvo) (rpo2_max_exp bits mvo) mvo) false slope x) (po2_val (rpo2_q c x)) = true.
+Proof.
+  intros Xd c. unfold gen_rpo2_xq, rpo2_q, c. cbn [r_bits r_mv r_mode r_slope negb]. rewrite orb_true_r.
+  rewrite pos_branch_exponent by exact Xd. apply rpow2_is_val.
+Qed.
+
+(* leaky, non-negative input: the same positive branch *)
+Theorem link_rpo2_leaky_nonneg bits mvo m s slope x : 0 < rden x -> 0 <= rnum x ->
+  let c := RP2 bits mvo m (Some s) in
+  req (gen_rpo2_xq (clip_po2 m (rpo2_min_exp bits mvo) (rpo2_max_exp bits mvo) mvo) true slope x) (po2_val (rpo2_q c x)) = true.
+Proof.
+  intros Xd Xn c. unfold gen_rpo2_xq, rpo2_q, c. cbn [r_bits r_mv r_mode r_slope negb].
+  replace (rle (0, 1) x) with true by (unfold rle; cbn [rnum rden fst snd]; lia). cbn [orb].
+  replace (rnum x <? 0) with false by lia. cbn [negb].
+  rewrite pos_branch_exponent by exact Xd. replace (rnum x <? 0) with false by lia. cbn [negb]. apply rpow2_is_val.
+Qed.
+
+(* leaky, negative input: minus a power of two whose exponent is the clip of |x| * slope *)
+Theorem link_rpo2_leaky_negative clipf slope x : rnum x < 0 -> 0 < rden x ->
+  gen_rpo2_xq clipf true slope x = rneg (rpow2 (clipf (rmul (rneg x) slope))).
+Proof.
+  intros Xn Xd. unfold gen_rpo2_xq.
+  replace (rle (0, 1) x) with false by (unfold rle; cbn [rnum rden fst snd]; lia). cbn [orb negb].
+  unfold lrelu. replace (rlt (0, 1) (rneg x)) with true by (unfold rlt, rneg; cbn [rnum rden fst snd]; lia). reflexivity.
+Qed.
+
+(* the unquantized surrogate: the (leaky) ReLU, bounded by max_value when one is given *)
+Theorem link_rpo2_xu slope mv x :
+  gen_rpo2_xu false slope mv x = lrelu slope x /\ gen_rpo2_xu true slope mv x = (if rle x mv then lrelu slope x else mv).
+Proof. split; reflexivity. Qed.
